@@ -111,14 +111,15 @@ func (m *c12) checkSlice(name string, got, want []byte) *core.Violation {
 	if !eq(got, want) {
 		return m.viol(name+"-wrong", "%s() = %q (len %d), want %q (len %d) with start=%d pos=%d", name, clip(got), len(got), clip(want), len(want), m.start, m.pos)
 	}
-	if cap(got) != len(got) {
-		return m.viol("slice-cap", "%s() returned len %d cap %d: appending to it would overwrite the input", name, len(got), cap(got))
-	}
 	return nil
 }
 
 // appendProbe appends to a returned slice and checks that the input is intact.
 func (m *c12) appendProbe(name string, got []byte) *core.Violation {
+	var slot byte
+	if m.backing != nil && m.n < len(m.backing) {
+		slot = m.backing[m.n]
+	}
 	x := append(got, 0xA5, 0x5A)
 	_ = x
 	if b := m.z.Bytes(); !eq(b, m.data) {
@@ -126,6 +127,12 @@ func (m *c12) appendProbe(name string, got []byte) *core.Violation {
 	}
 	if m.pos < len(m.data) && m.z.Peek(0) != m.data[m.pos] {
 		return m.viol("append-clobbers-input", "appending to the slice returned by %s() changed Peek(0)", name)
+	}
+	if c := m.z.Peek(len(m.data) - m.pos); c != 0 {
+		return m.viol("append-clobbers-input", "appending to the slice returned by %s() (len %d, cap %d) overwrote the terminator: Peek at the end = %#x", name, len(got), cap(got), c)
+	}
+	if m.backing != nil && m.n < len(m.backing) && m.backing[m.n] != slot {
+		return m.viol("append-clobbers-input", "appending to the slice returned by %s() (len %d, cap %d) changed the byte behind the input in the caller's array", name, len(got), cap(got))
 	}
 	return nil
 }
@@ -235,9 +242,8 @@ func RunC12(ctx *core.Ctx) *core.Violation {
 		if m.borrow {
 			ctx.NonT = true
 			ctx.Count("probe_terminator_borrowed")
-			if m.backing[n] != 0 {
-				return m.viol("no-terminator", "spare capacity available but the byte after the input is %#x, not the terminator", m.backing[n])
-			}
+			// (whether the implementation really borrows the byte or copies the input is its own
+			// business: only what it leaves behind after Restore is judged)
 		}
 	case ctorString:
 		m.z = parse.NewInputString(string(data))
@@ -360,7 +366,7 @@ func RunC12(ctx *core.Ctx) *core.Violation {
 				return m.viol("peek-wrong", "Peek(%d) at offset %d of %d = %#x, want %#x", i, m.pos, N, got, want)
 			}
 		case o12PeekErr:
-			i := t.Range(-m.pos-2, N-m.pos+3)
+			i := t.Range(-m.pos, N-m.pos+3) // positions before the start of the input are not constrained
 			got := m.z.PeekErr(i)
 			ctx.L.Ev("PeekErr", int64(i))
 			if want := m.wantErrAt(m.pos + i); got != want {
